@@ -12,10 +12,11 @@ from ..sbytes import SByteArray, SBytes, StructProxy
 from ..values import SInt, smin
 
 PROPERTY = "C03"
-MODULES = ["precomputed_io", "chunk_encoding", "_compressed_segmentation", "accessor"]
+MODULES = ["precomputed_io", "chunk_encoding", "_compressed_segmentation", "accessor", "_jpeg"]
 FUNCTIONS = ["precomputed_io.PrecomputedIO.__init__/validate_chunk_coords/read_chunk/write_chunk",
              "chunk_encoding.get_encoder", "chunk_encoding.RawChunkEncoder.encode/decode",
-             "chunk_encoding.CompressedSegmentationEncoder.encode/decode", "_compressed_segmentation.*"]
+             "chunk_encoding.CompressedSegmentationEncoder.encode/decode", "_compressed_segmentation.*",
+             "chunk_encoding.JpegChunkEncoder.encode/decode", "_jpeg.encode_chunk/decode_chunk"]
 STUBS = ["np/struct/bytearray stand-ins as in C02", "min -> fork-free if-then-else minimum (validate_chunk_coords)",
          "accessor = in-memory dictionary accessor (file/sharded accessors are covered by C12/C04/C05/C01)"]
 ASSUMPTIONS = ["voxel_offset == [0,0,0] (the only value the code accepts)"]
@@ -30,7 +31,8 @@ BOUNDS = {
              "histories: k<=3 writes over 4 slots of a two-scale info",
     "thorough": "more shapes/chunk sizes (up to 27 voxels per chunk), k<=4 histories",
 }
-OUTSIDE = ["JPEG (lossy bound): libjpeg through Pillow is compiled code", "voxel_offset other than zero",
+OUTSIDE = ["the accuracy of the JPEG codec itself (libjpeg through Pillow is compiled code): harness 'jpeg' replaces it by a lossy "
+           "stand-in that keeps the image geometry and returns every sample within 6 grey levels", "voxel_offset other than zero",
            "file-system / sharded accessors (C12, C04, C05, C01)"]
 
 
@@ -73,6 +75,10 @@ def configs(tier, seed):
         out.append(dict(harness="unsafe", dt_chunk=dt_chunk, dt_data=dt_data, cost=1))
     for k in ((1, 2, 3) if tier == "quick" else (1, 2, 3, 4)):
         out.append(dict(harness="history", k=k, dtype="uint16", cost=k))
+    for C, size, cs, plane in ((1, (3, 2, 2), (2, 2, 2), "xy"), (1, (2, 3, 2), (2, 2, 2), "xz"), (3, (2, 2, 3), (2, 2, 2), "xy"),
+                               (3, (3, 2, 2), (2, 1, 2), "xz")) + (((1, (4, 3, 3), (3, 3, 3), "xz"), (3, (3, 3, 3), (2, 3, 2), "xy"))
+                                                                   if tier == "thorough" else ()):
+        out.append(dict(harness="jpeg", C=C, size=list(size), cs=list(cs), plane=plane, cost=2))
     return out
 
 
@@ -223,6 +229,93 @@ def H_identity(ctx, cfg):
         _same(ctx, io2.read_chunk("k0", cc), chunk, "fresh-handle")
 
 
+class _LossyCodec:
+    """Stand-in for Pillow in _jpeg.py: fromarray/save/open keep the image geometry and return every sample within
+    EPS of what was saved (the codec's accuracy itself is compiled code); files are registered byte tokens."""
+    EPS = 6
+
+    def __init__(self, ctx):
+        import types
+        self.ctx, self.saved = ctx, {}
+        self.Image = types.SimpleNamespace(fromarray=self.fromarray, open=self.open)
+
+    def fromarray(self, arr, mode=None):
+        codec = self
+        if not isinstance(arr, SArray) or arr.dtype != real_np.uint8 or arr.ndim not in (2, 3) or (arr.ndim == 3 and arr.shape[2] != 3):
+            raise TypeError(f"Cannot handle this data type: {getattr(arr, 'shape', None)}, {getattr(arr, 'dtype', None)}")
+
+        class Img:
+            mode = "L" if arr.ndim == 2 else "RGB"
+            size = (arr.shape[1], arr.shape[0])
+            pixels = arr
+
+            def save(self, fp, format=None, **params):
+                assert format == "jpeg"
+                assert 0 <= params.get("quality", 75) <= 100 and params.get("subsampling", 0) in (0, 1, 2)
+                tok = b"\xff\xd8JPEGTOKEN%04d\xff\xd9" % len(codec.saved)
+                codec.saved[tok] = self
+                fp.write(tok)
+        return Img()
+
+    def open(self, fp):
+        tok = fp.read()
+        src = self.saved.get(bytes(tok))
+        if src is None:
+            raise OSError("cannot identify image file")
+        ctx = self.ctx
+        flat = src.pixels.a.ravel()
+        out = real_np.empty(len(flat), dtype=object)
+        from ..values import SBV
+        for i, p in enumerate(flat):
+            q = SBV.var(ctx.fresh_name("dec"), "uint8")
+            d = z3.BV2Int(q.e) - z3.BV2Int(p.e)
+            ctx.assume(z3.And(d <= self.EPS, d >= -self.EPS))
+            out[i] = q
+        dec = SArray(out.reshape(src.pixels.shape), real_np.uint8)
+
+        class Img:
+            mode, size = src.mode, src.size
+
+            def __sarray__(self):
+                return dec
+        return Img()
+
+
+def H_jpeg(ctx, cfg):
+    """JPEG round trip through PrecomputedIO with the codec replaced by a lossy stand-in: same shape and type, and every
+    voxel within the codec's error of the voxel written at that position (the Python-side reshaping is what is decided)."""
+    C, size, cs = cfg["C"], cfg["size"], cfg["cs"]
+    npx = NPProxy()
+    ce = load.patch("chunk_encoding", np=npx)
+    codec = _LossyCodec(ctx)
+    load.patch("_jpeg", np=npx, PIL=codec)
+    pio = load.patch("precomputed_io")
+    info = _info("uint8", C, size, [cs], "jpeg")
+    acc = DictAccessor()
+    # the reader does not know the plane the writer used: the format fixes the row order, not the image geometry
+    io = pio.PrecomputedIO(info, acc, encoder_options={"jpeg_plane": cfg["plane"], "jpeg_quality": cfg.get("quality", 95)})
+    allv = []
+    for cc in _chunks_of(size, cs):
+        shape = (C, cc[5] - cc[4], cc[3] - cc[2], cc[1] - cc[0])
+        chunk = SArray.fresh(shape, "uint8", "v%d_%d_%d_" % (cc[0], cc[2], cc[4]))
+        allv += [e.e for e in chunk.a.ravel()]
+        io.write_chunk(chunk, "k0", cc)
+        stored = acc.chunks[("k0", tuple(cc))]
+        acc.chunks[("k0", tuple(cc))] = bytes(stored.concrete()) if isinstance(stored, SBytes) else stored
+        got = pio.PrecomputedIO(info, acc).read_chunk("k0", cc)
+        ok = getattr(got, "shape", None) == shape and real_np.dtype(got.dtype) == real_np.uint8
+        ctx.prove(ok, "same-shape-and-type", detail=f"{getattr(got, 'shape', None)} {getattr(got, 'dtype', None)} for {shape}")
+        if not ok:
+            continue
+        conds = []
+        for a, b in zip(got.a.ravel(), chunk.a.ravel()):
+            d = z3.BV2Int(a.e) - z3.BV2Int(b.e)
+            conds.append(z3.And(d <= codec.EPS, d >= -codec.EPS))
+        ctx.prove(z3.And(conds), "every-voxel-within-the-codec-error-of-the-voxel-written-there")
+    ctx.input("voxels", allv)
+    ctx.sample(dict(C=C, size=size, cs=cs, plane=cfg["plane"]))
+
+
 def H_unsafe(ctx, cfg):
     """A chunk whose dtype cannot be safely cast to the dataset type must not be stored truncated."""
     pio, ce = _patched()
@@ -297,6 +390,29 @@ def replay(cfg, cex):
     pio = load.mod("precomputed_io")
     h = cfg["harness"]
     inp = cex["inputs"]
+    if h == "jpeg":
+        # quality 100 keeps the real codec within 3 grey levels on this kind of data (measured); the voxels written are
+        # pairwise >= step apart, so a voxel that comes back from another position is off by at least `step`
+        C, size, cs = cfg["C"], cfg["size"], cfg["cs"]
+        info = _info("uint8", C, size, [cs], "jpeg")
+        acc = _RealDict()
+        io = pio.PrecomputedIO(info, acc, encoder_options={"jpeg_plane": cfg["plane"], "jpeg_quality": 100})
+        for cc in _chunks_of(size, cs):
+            shape = (C, cc[5] - cc[4], cc[3] - cc[2], cc[1] - cc[0])
+            n = builtins.int(real_np.prod(shape))
+            step = 240 // n
+            chunk = (10 + step * real_np.random.RandomState(n).permutation(n)).astype(real_np.uint8).reshape(shape)
+            try:
+                io.write_chunk(chunk, "k0", cc)
+                got = pio.PrecomputedIO(info, acc).read_chunk("k0", cc)
+            except Exception as e:
+                return True, f"JPEG round trip of chunk {cc} raised {type(e).__name__}: {e}"
+            if got.shape != shape or got.dtype != real_np.uint8:
+                return True, f"chunk {cc}: read back shape {got.shape} dtype {got.dtype}, written {shape} uint8"
+            err = builtins.int(real_np.abs(got.astype(builtins.int) - chunk.astype(builtins.int)).max())
+            if err > builtins.min(step - 1, 5):
+                return True, f"chunk {cc} ({cfg['plane']} plane, {C} channel(s)): voxels come back up to {err} grey levels off: wrote {chunk.ravel().tolist()} read {got.ravel().tolist()}"
+        return False, "JPEG round trip keeps every voxel in place on the real code"
     if h in ("grid", "reject"):
         size, coords = inp["size"], inp["coords"]
         info = _info("uint8", 1, size, cfg["cs_list"], "raw")
